@@ -63,3 +63,28 @@ def errname(e):
 
 def add_quiet(path):
     wn.add(path, progress_handler=None)
+
+
+class TooSlow(BaseException):
+    """raised by time_limit; BaseException so that the battery's `except Exception` clauses do not swallow it"""
+
+
+class time_limit:
+    """with time_limit(seconds): ...  raises TooSlow when the block runs longer (SIGALRM; main thread only)"""
+    def __init__(self, seconds):
+        self.seconds = seconds
+
+    def __enter__(self):
+        import signal
+
+        def handler(signum, frame):
+            raise TooSlow()
+        self.old = signal.signal(signal.SIGALRM, handler)
+        signal.alarm(int(self.seconds))
+        return self
+
+    def __exit__(self, *a):
+        import signal
+        signal.alarm(0)
+        signal.signal(signal.SIGALRM, self.old)
+        return False
